@@ -3,10 +3,12 @@ pub mod c01;
 pub mod c04;
 pub mod c06;
 pub mod c07;
+pub mod c08;
 pub mod c09;
 pub mod c10;
 pub mod c11;
 pub mod c12;
+pub mod c19;
 
 use crate::engine::{self, Property, Tier};
 use std::path::Path;
@@ -26,10 +28,12 @@ pub fn dispatch(id: &str, tier: Tier, seed: u64, replay: Option<&str>) -> i32 {
         "C04" => run(&c04::C04, tier, seed, replay),
         "C06" => run(&c06::C06, tier, seed, replay),
         "C07" => run(&c07::C07, tier, seed, replay),
+        "C08" => run(&c08::C08, tier, seed, replay),
         "C09" => run(&c09::C09, tier, seed, replay),
         "C10" => run(&c10::C10, tier, seed, replay),
         "C11" => run(&c11::C11, tier, seed, replay),
         "C12" => run(&c12::C12, tier, seed, replay),
+        "C19" => run(&c19::C19, tier, seed, replay),
         _ => {
             eprintln!("unknown property id {}", id);
             2
